@@ -39,7 +39,8 @@ ROUNDS = [("/tmp/det_all.log", "round 1 (machinery as first built, commit ba9e68
           ("/tmp/try_w2f.log", "wave 2, thorough tier"),
           ("/tmp/try_w3a.log", "wave 3, first evaluation with the machinery frozen at commit da892cb (descriptions not used)"),
           ("/tmp/try_w3b.log", "final machinery (commit 13e2195, after the strengthening that followed wave 3)"),
-          ("/tmp/try_w3c.log", "final machinery (commit 13e2195, after the strengthening that followed wave 3)")]
+          ("/tmp/try_w3c.log", "final machinery (commit 13e2195, after the strengthening that followed wave 3)"),
+          ("/tmp/try_w3d.log", "final machinery (commit 2410502: F7 residual 8 units, routes must offer the previous proceeds)")]
 det = []
 base = os.path.basename(patchfile)
 for f, label in ROUNDS:
